@@ -166,6 +166,11 @@ fn build_batch(specs: Vec<GrammarSpec>, out: &Path, crates: usize, plan: &str, s
                 }
                 spec.model = with_w;
                 spec.exported = gl.exported.clone();
+                let code = if spec.flags.via_macro {
+                    format!("peginator_macro::peginate!(r################\"{}\"################);\n", text)
+                } else {
+                    code
+                };
                 entries.push((spec, text, code, gl.code));
             }
         }
@@ -198,8 +203,9 @@ fn build_batch(specs: Vec<GrammarSpec>, out: &Path, crates: usize, plan: &str, s
         write_if_changed(
             &cdir.join("Cargo.toml"),
             &format!(
-                "[package]\nname = \"{cname}\"\nversion = \"0.1.0\"\nedition = \"2021\"\n\n[dependencies]\nbatchrt = {{ path = \"../../../batchrt\" }}\nverif_core = {{ path = \"../../../core\" }}\npeginator = {{ path = \"{}/runtime\" }}\n",
-                std::env::var("VERIF_REPO_PATH").unwrap_or_else(|_| "/repo".into())
+                "[package]\nname = \"{cname}\"\nversion = \"0.1.0\"\nedition = \"2021\"\n\n[dependencies]\nbatchrt = {{ path = \"../../../batchrt\" }}\nverif_core = {{ path = \"../../../core\" }}\npeginator = {{ path = \"{0}/runtime\" }}\n{1}",
+                std::env::var("VERIF_REPO_PATH").unwrap_or_else(|_| "/repo".into()),
+                if plan == "macro" { format!("peginator_macro = {{ path = \"{}/macro\" }}\n", std::env::var("VERIF_REPO_PATH").unwrap_or_else(|_| "/repo".into())) } else { String::new() }
             ),
         );
         let mut main = String::from("#![forbid(unsafe_code)]\n#![allow(warnings)]\n");
